@@ -55,6 +55,13 @@ class C07(Check):
         # Props/FloatInstance.C07_robust_float_refuted); deterministic cases, judged with exact rationals
         for (cmp_, thr, x, x2) in [('geq', -1, 2.0 ** 53 + 2, -1.5), ('leq', 1, -(2.0 ** 53 + 2), 1.5), ('geq', -3, 2.0 ** 54 + 4, -3.5), ('geq', 1, 3.0, 2.5), ('leq', 1, 5.0, 1.5)]:
             cases.append({'f': ('pred', cmp_, ('var', 0), ('const', thr)), 'n': 1, 'nv': 1, 'cols': [[x]], 'pert': [[x2]], 'times': [0], 'simple': True, 'round': 1})
+        # an int sample and the float of the same value must get the same robustness (exp of a huge negative int is 0, not +inf)
+        X = ('var', 0)
+        # (no float constant next to the exact product: an int beyond the floats cannot be mixed with one, a limitation noted in DESIGN)
+        for f, v in [(('pred', 'leq', ('a1', 'exp', ('a1', 'neg', ('a2', 'mul', X, X))), ('const', 1)), 10 ** 200),
+                     (('pred', 'geq', ('a1', 'exp', ('a1', 'neg', ('a2', 'mul', X, X))), ('const', 0)), 10 ** 160),
+                     (('pred', 'geq', ('a1', 'exp', ('a2', 'mul', X, X)), ('const', 1)), 10 ** 200)]:
+            cases.append({'f': f, 'n': 1, 'nv': 1, 'cols': [[v]], 'pert': [[float(v)]], 'times': [0], 'simple': True, 'round': 'twin'})
         return cases
 
     def model_lines(self, c):
@@ -86,6 +93,11 @@ class C07(Check):
                     return 'violation', {'expected': 'evaluates', 'observed': i['setup'] if i['setup']['status'] != 'ok' else i['calls'][0]}
             rho, rho2 = float(a['calls'][0]['value'][0][1]), float(b['calls'][0]['value'][0][1])
             x, x2 = c['cols'][0][0], c['pert'][0][0]
+            if c['round'] == 'twin':
+                if rho != rho2:
+                    return 'violation', {'shape': 'int_and_float_sample_differ', 'spec': 'out = ' + fml.to_text(c['f']), 'expected': {'sample %r (float)' % x2: rho2},
+                                         'observed': {'sample %d (int, the same value)' % x: rho}}
+                return 'ok', None
             dist = abs(Fraction(x) - Fraction(x2))
             if dist < abs(Fraction(rho)) and (rho > 0) != (rho2 > 0):
                 return 'violation', {'shape': 'rounded_robustness', 'spec': 'out = ' + fml.to_text(c['f']), 'sample': x, 'perturbed_sample': x2,
@@ -142,6 +154,11 @@ class C07(Check):
             return 'model-differs', dict(det, expected={'rho': rho}, observed=off, note='implementation differs from rho')
         c['_nz'] = nz
         return 'ok', None
+
+    def still_fails(self, model, c, shape=None):
+        if c.get('round'):
+            return False, None        # crafted pairs of samples: shrinking one of the two makes another case of it
+        return Check.still_fails(self, model, c, shape)
 
     def signature(self, c, detail):
         sig = Check.signature(self, c, detail)
